@@ -93,3 +93,31 @@ func ZZ_C13_EveryRouteProtected() {
 		vx.Assert("no handler after the authorisation check ran", ran < vx.GinChainLen(i) && vx.HTTPWrites(c) == 1)
 	}
 }
+
+// C11 (recharging route): any path parameter - with or without the '_'
+// separator, with a non-numeric rating group - is answered without a panic.
+//
+//gosx:property=C11 tier=quick
+func ZZ_C11_RechargePut() {
+	ctx := chf_context.GetSelf()
+	app := &zzApp{cfg: &factory.Config{Configuration: &factory.Configuration{}}, ctx: ctx, p: &processor.Processor{}}
+	s := &Server{ServerChf: app}
+	n := vx.Choice("len", 5)
+	info := vx.String("rechargingInfo", n)
+	c := &gin.Context{}
+	vx.HTTPSetParam(c, "rechargingInfo", info)
+	panicked := false
+	func() {
+		defer func() {
+			if r := recover(); r != nil {
+				panicked = true
+				vx.Fail("recharge handler panicked")
+			}
+		}()
+		s.RechargePut(c)
+	}()
+	if !panicked {
+		st := vx.HTTPStatus(c)
+		vx.Assert("recharge answered 2xx or 4xx", (st >= 200 && st <= 299) || (st >= 400 && st <= 499))
+	}
+}
